@@ -79,10 +79,11 @@ def step (st : St) : List String → St × String
       -- ... read as entry-only callbacks (what each executed callback scheduled, over the history):
       -- `loop`/`evolveUntil`/`stepOp`, the objects of the theorems, must replay the very same run
       -- (`evolveUntilC_eq_evolveUntil_table`); without clock-relative children `kidsOf` itself is used
-      let ftbl := st.ftbl ++ fireTable (kidsOfC st.tbl) runC.trace
+      let hcC := stepOpC (kidsOfC st.tbl) fuel ⟨st.h, st.ftbl⟩ (.evolve T)
+      let ftbl := hcC.tbl
       let kids := if clockRel st.tbl then tableKids ftbl else kidsOf st.tbl
       let run := evolveUntil kids fuel st.h.s T
-      let h' := stepOp kids fuel st.h (.evolve T)
+      let h' := if clockRel st.tbl then hcC.h else stepOp kids fuel st.h (.evolve T)
       let t0 := st.h.s.t
       -- clock, counter and queue are printed from the history state the theorems are about
       let out := s!"{showStatus run.status} t={showRat h'.s.t} ctr={h'.s.ctr} trace=" ++
@@ -90,7 +91,7 @@ def step (st : St) : List String → St × String
         ";".intercalate (h'.s.queue.map showEntry) ++ " iv=" ++
         ";".intercalate ((intervals t0 run.trace).map showIv) ++
         s!" sum={showRat (sumDt run.trace)} lfc={showRat (lastFireClock t0 run.trace)}" ++
-        s!" same={decide (run = runC)}"
+        s!" same={decide (run = runC ∧ hcC.h = h')}"
       ({ st with h := h', ftbl := ftbl, ops := st.ops ++ [.evolve T],
                  fuel := some fuel, fuelSame := st.fuelSame && (st.fuel.isNone || st.fuel == some fuel) }, out)
     | _, _ => (st, "bad-op")
